@@ -9,10 +9,20 @@ def scan(t):
     d = t["scan"]
     reach = set(d["reachable_funcs"])
     out = ["From Coq Require Import String.", "Open Scope string_scope.", ""]
-    out.append("(* package-level variables of the module: (name, holds references?, write sites as (function, kind)) *)")
+    out.append("(* package-level variables of the module, and state of other packages that module code sets (lib:...):\n"
+               "   (name, holds references?, sites that may mutate it as (function, kind), each pair once, in source order).\n"
+               "   kinds: assign opassign incdec address-taken append-into copy-into sort-in-place delete clear (direct or through an\n"
+               "   alias: local, parameter, receiver, function result - tools/scan/globals.go), method:<callee> (a method that is not\n"
+               "   declared in the module is called on it: pointer receivers take its address), arg:<callee> (a reference into it is\n"
+               "   passed to code that is not followed), sent-on-channel, call (lib: a state-setting function of another package) *)")
     rows = []
     for g in d["globals"]:
-        ws = "; ".join("(%s, %s)" % (q(w["func"]), q(w["kind"])) for w in g["writes"])
+        seen, pairs = set(), []
+        for w in g["writes"]:
+            if (w["func"], w["kind"]) not in seen:
+                seen.add((w["func"], w["kind"]))
+                pairs.append(w)
+        ws = "; ".join("(%s, %s)" % (q(w["func"]), q(w["kind"])) for w in pairs)
         rows.append("  (%s, %s, [%s])" % (q(g["name"]), "true" if g["ref"] else "false", ws))
     out.append("Definition globals : list (string * bool * list (string * string)) := [\n" + ";\n".join(rows) + "\n].\n")
     out.append("(* every `range` over a map in non-test code: (function, ordinal within the function, expression) *)")
